@@ -382,6 +382,42 @@ def _r5(ctx: Context) -> None:
                         ok = True
             rep.ob("C06.R5", fkey("backend", f, "closes-on-tls-failure"), ok, where(f),
                    "handshake is enclosed by a handler that closes the stream and re-raises" if ok else "a failed TLS handshake leaves the underlying socket open")
+            # every construct of start_tls that can raise an Exception lies INSIDE the body of that closing try: in particular the
+            # timeout scope, whose TimeoutError is raised when the scope EXITS (inside it the deadline is a cancellation, which
+            # `except Exception` does not see) - a scope around the try turns a stalled handshake into an unclosed socket
+            closing = []
+            for t in trys:
+                for h in t.handlers:
+                    if any(isinstance(x, ast.Call) and norm(x.func) in ("self.aclose", "self.close") for x in ast.walk(h)):
+                        closing.append(t)
+            outside = []
+            for x in own_nodes(f.node):
+                raising = None
+                if isinstance(x, (ast.With, ast.AsyncWith)) and any(isinstance(it.context_expr, ast.Call) and (chain(it.context_expr.func) or [""])[-1] in ("fail_after", "move_on_after") for it in x.items):
+                    raising = x
+                elif isinstance(x, ast.Await):
+                    raising = x
+                elif isinstance(x, ast.Call) and (chain(x.func) or [""])[-1] in ("wrap_socket", "TLSinTLSStream", "do_handshake", "settimeout", "wrap_bio"):
+                    raising = x
+                if raising is None:
+                    continue
+                anc = []
+                q = parent(raising)
+                prev = raising
+                inside = False
+                while q is not None and q is not f.node:
+                    if isinstance(q, ast.Try) and q in closing and any(prev is s_ for s_ in q.body):
+                        inside = True
+                    if isinstance(q, ast.ExceptHandler) and parent(q) in closing:
+                        inside = True   # the close call itself
+                    prev = q
+                    q = parent(q)
+                if not inside:
+                    outside.append(raising)
+            rep.ob("C06.R5", fkey("backend", f, "all-failures-inside-closing-try"), bool(closing) and not outside, where(f, outside[0] if outside else None),
+                   "every raising construct of start_tls (handshake, timeout scope) lies inside the try whose handler closes the stream" if closing and not outside else
+                   f"`{ast.unparse(outside[0]).splitlines()[0][:70] if outside else 'start_tls'}` lies outside the try whose handler closes the stream: its failure (for a timeout scope: the TimeoutError raised at scope exit) "
+                   "leaves start_tls as an Exception without the socket being closed - and the caller relies on the backend having closed it")
     rep.floor("C06.R5", "backend start_tls implementations", n, 3)
 
 _core_run = run
@@ -394,3 +430,7 @@ def run(ctx: Context) -> None:  # noqa: F811
     ctx.rep.rule('C06.R7', "each real backend's close()/aclose() reaches the release of its socket on every path (nothing that can raise before it outside a finally, no condition)")
     backend.close_releases(ctx, 'C06.R7')
     ctx.rep.explanation = (ctx.rep.explanation or '') + ' R7 (transport layer): the backend close()/aclose() reaches the OS release unconditionally on every path.'
+    from . import support
+
+    ctx.rep.rule('C06.R8', 'leaving `with pool:` closes the pool unconditionally; httpcore.request()/stream() run inside such a scope')
+    support.pool_scope_closes(ctx, 'C06.R8')
